@@ -128,12 +128,20 @@ def splitOnSep (sep : Bytes) : Nat → Bytes → List Bytes
       | [] => [[c]]
       | p :: ps => (c :: p) :: ps
 
-/-- rule key, argument and whether a message follows, read off the rule text (`key[=arg][|msg]`) -/
+/-- the text in front of the first `c` (all of it when there is none) -/
+def upTo (c : UInt8) (s : Bytes) : Bytes := s.takeWhile (· != c)
+/-- the text behind the first `c` (empty when there is none) -/
+def behind (c : UInt8) (s : Bytes) : Bytes := (s.dropWhile (· != c)).drop 1
+
+/-- rule key and argument, read off the rule text (`key[=arg][|msg]`): the message starts at the
+first `|`, the argument at the first `=` in front of it -/
 def ruleParts (text : Bytes) : Bytes × Bytes :=
-  let body := match Bytes.indexByte? 124 text with | some i => text.take i | none => text
-  match Bytes.indexByte? 61 body with
-  | some i => (body.take i, body.drop (i + 1))
-  | none => (body, [])
+  let body := upTo BAR text
+  (upTo EQ body, behind EQ body)
+
+/-- a rule text of the documented shape `key[=arg][|message]` (empty `arg` / `msg` = absent) -/
+def mkText (key arg msg : Bytes) : Bytes :=
+  key ++ (if arg.isEmpty then [] else EQ :: arg) ++ (if msg.isEmpty then [] else BAR :: msg)
 
 def unq (s : Bytes) : Bytes := Bytes.trimByte QUOTE s
 
